@@ -45,6 +45,9 @@ def run(chk: Check) -> None:
     run_twin_fields(chk, ix)
     run_not_in_dependency(chk, ix)
     run_reprocess_ignore_notes(chk, ix)
+    run_mro_walk_dependencies(chk, ix)
+    run_module_tests_not_substrings(chk, ix)
+    run_var_snapshot_flags(chk, ix)
 
     r1 = chk.rule("R03.1", "reprocess_nodes performs snapshot < clear < strip < analyse < merge < check < snapshot < compare < update_deps on every normal path, returns the compared triggers, and the propagation loop re-queues error targets and resets protocol caches first", floor=12)
     rp = ix.func("mypy.server.update.reprocess_nodes")
@@ -621,3 +624,98 @@ def run_reprocess_ignore_notes(chk: Check, ix) -> None:
             r11.ok(key, part.loc())
         else:
             r11.violation(key, part.loc(), f"after a partial re-check the module's {'unused-ignore' if 'unused' in meth else 'ignore-without-code'} diagnostics are not regenerated")
+
+
+def run_mro_walk_dependencies(chk: Check, ix) -> None:
+    """R03.12: a lookup along the MRO depends on every class it passed, not only on the one that answered."""
+    from ..cfg import branch_conditions
+    r12 = chk.rule("R03.12", "server/deps.DependencyVisitor: in a loop over the base classes of a class (`for base in non_trivial_bases(info)`) the member dependency `<base.name>` is added on every iteration the loop reaches, not only under `name in base.names`: the lookup (`super().name`, an override) is answered by the *first* base that defines the name, so when an earlier base gains the name the answer changes, and only a dependency on that earlier base's (so far non-existent) member re-checks the user", floor=2)
+    dv = ix.cls("mypy.server.deps.DependencyVisitor")
+    n = 0
+    for f in dv.methods.values():
+        par = f.module.parents()
+        for lp in ast.walk(f.node):
+            if not (isinstance(lp, ast.For) and isinstance(lp.iter, ast.Call) and call_name(lp.iter) == "non_trivial_bases" and isinstance(lp.target, ast.Name)):
+                continue
+            bv = lp.target.id
+            adds = [c for c in ast.walk(lp) if isinstance(c, ast.Call) and call_name(c) == "add_dependency" and any(isinstance(x, ast.Name) and x.id == bv for x in ast.walk(c))]
+            if not adds:
+                continue
+            n += 1
+            key = f"DependencyVisitor.{f.name}: every base the loop visits gets the member dependency"
+            bad = None
+            for c in adds:
+                st = c
+                while not isinstance(st, ast.stmt):
+                    st = par[st]
+                pos, neg = branch_conditions(par, lp, st, early_exits=True)
+                for t in pos:
+                    for cmp_ in ast.walk(t):
+                        if isinstance(cmp_, ast.Compare) and len(cmp_.ops) == 1 and isinstance(cmp_.ops[0], ast.In) and norm(cmp_.comparators[0]).startswith(bv + "."):
+                            bad = (c, t)
+            if bad is None:
+                r12.ok(key, f.loc(lp))
+            else:
+                r12.violation(key, f.loc(bad[0]), f"the dependency on `<{bv}.name>` is added only when `{norm(bad[1])}`: bases the walk passed without finding the name get none, so adding the name to an intermediate class (or to a mixin earlier in the MRO) fires a trigger nobody listens to and the method using `super().name` keeps its stale result in the daemon")
+    if n < 2:
+        raise AnalysisError(f"DependencyVisitor: only {n} loops over non_trivial_bases that add dependencies found")
+
+
+def run_module_tests_not_substrings(chk: Check, ix) -> None:
+    """R03.13: which module a class belongs to is read off the class, not searched for in a trigger string."""
+    r13 = chk.rule("R03.13", "typestate._snapshot_protocol_deps leaves out dependencies of typeshed's core modules; each `continue` that drops a dependency tests the module of the class (`info.module_name ...`, `fullname.startswith('typing.')`), never a substring of the rendered trigger (`'typing' in trigger` also matches a user module called mytyping_impl, whose protocol dependencies are then lost: the daemon misses errors after its classes change)", floor=2)
+    f = ix.func("mypy.typestate.TypeState._snapshot_protocol_deps")
+    n = 0
+    for i in ast.walk(f.node):
+        if not (isinstance(i, ast.If) and any(isinstance(s, ast.Continue) for s in i.body)):
+            continue
+        n += 1
+        subs = [c for c in ast.walk(i.test) if isinstance(c, ast.Compare) and len(c.ops) == 1 and isinstance(c.ops[0], (ast.In, ast.NotIn)) and isinstance(c.left, ast.Constant) and isinstance(c.left.value, str) and isinstance(c.comparators[0], ast.Name)]
+        key = f"_snapshot_protocol_deps: the filter at line-order #{n} tests a module name"
+        if subs:
+            r13.violation(key, f.loc(i), f"`{norm(subs[0])}` is a substring test on a string: every module whose name merely contains {subs[0].left.value!r} is treated like typeshed")
+        else:
+            r13.ok(key, f.loc(i))
+    if n < 2:
+        raise AnalysisError(f"_snapshot_protocol_deps: only {n} dependency filters found")
+
+
+def run_var_snapshot_flags(chk: Check, ix) -> None:
+    """R03.14: a Var flag that alone decides a diagnostic about a member access is part of the Var snapshot."""
+    r14 = chk.rule("R03.14", "mypy/checkmember.py decides diagnostics about `obj.attr` (an access from any module) from flags of the attribute's Var; a flag from nodes.VAR_FLAGS that appears in the test of an `if` whose body directly reports (`msg.*`, `fail`) is compared by server/astdiff.snapshot_definition's Var entry, so that flipping the flag alone (`x: int` -> `x: ClassVar[int]`, a dataclass becoming frozen) triggers the users of the attribute in the daemon", floor=3)
+    nodes_m = ix.module("mypy.nodes")
+    flags = ix.const_eval(nodes_m, nodes_m.assigns["VAR_FLAGS"]) if hasattr(ix, "const_eval") else None
+    if not isinstance(flags, (list, tuple)):
+        flags = [e.value for e in ast.walk(nodes_m.assigns["VAR_FLAGS"]) if isinstance(e, ast.Constant) and isinstance(e.value, str)]
+    flags = set(flags)
+    if len(flags) < 10:
+        raise AnalysisError("nodes.VAR_FLAGS not found")
+    cm = ix.module("mypy.checkmember")
+    deciding: dict[str, int] = {}
+    for i in ast.walk(cm.tree):
+        if isinstance(i, ast.If):
+            fl = {x.attr for x in ast.walk(i.test) if isinstance(x, ast.Attribute) and x.attr in flags}
+            if not fl:
+                continue
+            reports = any(isinstance(c, ast.Call) and isinstance(c.func, ast.Attribute) and (norm(c.func.value).endswith("msg") or c.func.attr in ("fail", "note")) for s in i.body for c in ast.walk(s))
+            if reports:
+                for x in fl:
+                    deciding.setdefault(x, i.lineno)
+    sd = ix.func("mypy.server.astdiff.snapshot_definition")
+    var_ret = None
+    for i in ast.walk(sd.node):
+        if isinstance(i, ast.If) and "isinstance(node, Var)" in norm(i.test):
+            for r in i.body:
+                if isinstance(r, ast.Return):
+                    var_ret = r
+    if var_ret is None:
+        raise AnalysisError("snapshot_definition: the Var entry was not found")
+    snap = {x.attr for x in ast.walk(var_ret) if isinstance(x, ast.Attribute) and norm(x.value) == "node"}
+    if len(deciding) < 3:
+        raise AnalysisError(f"checkmember.py: only {sorted(deciding)} Var flags found that decide a diagnostic")
+    for fl, ln in sorted(deciding.items()):
+        key = f"Var.{fl} (decides a member-access diagnostic) is in the Var snapshot"
+        if fl in snap:
+            r14.ok(key, sd.loc(var_ret))
+        else:
+            r14.violation(key, f"mypy/checkmember.py:{ln}", f"checkmember.py:{ln} reports an error depending on `{fl}`, but snapshot_definition's Var entry compares only {sorted(snap)}: when the flag flips and the declared type stays the same, no trigger fires for the attribute and the daemon keeps the old answer")
